@@ -25,6 +25,9 @@ KEEP_PREFIX = 1
 REPO = os.environ.get("VERIF_REPO", os.path.normpath(os.path.join(os.path.dirname(os.path.abspath(__file__)), "..", "..", "repo")))
 
 
+_KADC = "src/protocol/libp2p/kademlia/config.rs"
+
+
 def _const(rel, rx, fallback):
     """An integer constant of the Rust source (so that the oracle follows a legitimate change of the constant)."""
     try:
@@ -38,8 +41,41 @@ def _const(rel, rx, fallback):
         return fallback
 
 
+YAMUX_DEFAULT_MAX_STREAMS = 512     # `yamux::Config::default()` of the yamux crate (0.13), not a constant of /repo
+
+_DUR = r"Duration::from_secs\(([^)]+)\);"
+
+
+def _str_const(rel, rx, fallback):
+    try:
+        return re.search(rx, open(os.path.join(REPO, rel)).read()).group(1)
+    except Exception:
+        return fallback
+
+
 def consts():
     return {
+        "mpd": _const("src/transport/mod.rs", r"const MAX_PARALLEL_DIALS: usize = ([^;]+);", 8),
+        "nra": _const("src/crypto/noise/mod.rs", r"const MAX_READ_AHEAD_FACTOR: usize = ([^;]+);", 5),
+        "nwb": _const("src/crypto/noise/mod.rs", r"const MAX_WRITE_BUFFER_SIZE: usize = ([^;]+);", 2),
+        "cot_ms": 1000 * _const("src/transport/mod.rs", r"const CONNECTION_OPEN_TIMEOUT: Duration = " + _DUR, 10),
+        "sot_ms": 1000 * _const("src/transport/mod.rs", r"const SUBSTREAM_OPEN_TIMEOUT: Duration = " + _DUR, 5),
+        "chan": _const("src/lib.rs", r"const DEFAULT_CHANNEL_SIZE: usize = ([^;]+);", 4096),
+        "sync": _const("src/protocol/notification/types.rs", r"const SYNC_CHANNEL_SIZE: usize = ([^;]+);", 2048),
+        "async": _const("src/protocol/notification/types.rs", r"const ASYNC_CHANNEL_SIZE: usize = ([^;]+);", 8),
+        "ping_ms": 1000 * _const("src/protocol/libp2p/ping/config.rs", r"const PING_INTERVAL: Duration = " + _DUR, 5),
+        "ping_mf": _const("src/protocol/libp2p/ping/config.rs", r"const MAX_FAILURES: usize = ([^;]+);", 3),
+        "kad_rf": _const(_KADC, r"const REPLICATION_FACTOR: usize = ([^;]+);", 20),
+        "kad_pf": _const("src/protocol/libp2p/kademlia/mod.rs", r"const PARALLELISM_FACTOR: usize = ([^;]+);", 3),
+        "kad_ttl": 1000 * _const(_KADC, r"const DEFAULT_TTL: Duration = " + _DUR, 129600),
+        "kad_mr": _const(_KADC, r"const DEFAULT_MAX_RECORDS: usize = ([^;]+);", 1024),
+        "kad_mrs": _const(_KADC, r"const DEFAULT_MAX_RECORD_SIZE_BYTES: usize = ([^;]+);", 66560),
+        "kad_mpk": _const(_KADC, r"const DEFAULT_MAX_PROVIDER_KEYS: usize = ([^;]+);", 1024),
+        "kad_mpa": _const(_KADC, r"const DEFAULT_MAX_PROVIDER_ADDRESSES: usize = ([^;]+);", 30),
+        "kad_mppk": _const(_KADC, r"const DEFAULT_MAX_PROVIDERS_PER_KEY: usize = ([^;]+);", 20),
+        "kad_pri": 1000 * _const(_KADC, r"const DEFAULT_PROVIDER_REFRESH_INTERVAL: Duration = " + _DUR, 79200),
+        "kad_pttl": 1000 * _const(_KADC, r"const DEFAULT_PROVIDER_TTL: Duration = " + _DUR, 172800),
+        "agent": _str_const("src/protocol/libp2p/identify.rs", r'const DEFAULT_AGENT: &str = "([^"]*)";', "litep2p/1.0.0"),
         "ka_default_ms": 1000 * _const("src/transport/mod.rs", r"const KEEP_ALIVE_TIMEOUT: Duration = Duration::from_secs\(([^)]+)\);", 5),
         "ping_size": _const("src/protocol/libp2p/ping/config.rs", r"const PING_PAYLOAD_SIZE: usize = ([^;]+);", 32),
         "identify_size": _const("src/protocol/libp2p/identify.rs", r"const IDENTIFY_PAYLOAD_SIZE: usize = ([^;]+);", 4096),
@@ -58,6 +94,26 @@ CONST_TABLE = [
     ("BITSWAP_MAX_MESSAGE_SIZE", "src/protocol/libp2p/bitswap/config.rs", r"pub const MAX_MESSAGE_SIZE: usize = ([^;]+);", 4194304),
     ("KEEP_ALIVE_TIMEOUT_SECS", "src/transport/mod.rs",
      r"pub\(crate\) const KEEP_ALIVE_TIMEOUT: Duration = Duration::from_secs\(([^)]+)\);", 5),
+    ("NODE_MAX_PARALLEL_DIALS", "src/transport/mod.rs", r"const MAX_PARALLEL_DIALS: usize = ([^;]+);", 8),
+    ("NODE_NOISE_READ_AHEAD", "src/crypto/noise/mod.rs", r"const MAX_READ_AHEAD_FACTOR: usize = ([^;]+);", 5),
+    ("NODE_NOISE_WRITE_BUFFER", "src/crypto/noise/mod.rs", r"const MAX_WRITE_BUFFER_SIZE: usize = ([^;]+);", 2),
+    ("NODE_CONNECTION_OPEN_TIMEOUT_SECS", "src/transport/mod.rs", r"const CONNECTION_OPEN_TIMEOUT: Duration = " + _DUR, 10),
+    ("NODE_SUBSTREAM_OPEN_TIMEOUT_SECS", "src/transport/mod.rs", r"const SUBSTREAM_OPEN_TIMEOUT: Duration = " + _DUR, 5),
+    ("NODE_DEFAULT_CHANNEL_SIZE", "src/lib.rs", r"const DEFAULT_CHANNEL_SIZE: usize = ([^;]+);", 4096),
+    ("NODE_NOTIF_SYNC_CHANNEL_SIZE", "src/protocol/notification/types.rs", r"const SYNC_CHANNEL_SIZE: usize = ([^;]+);", 2048),
+    ("NODE_NOTIF_ASYNC_CHANNEL_SIZE", "src/protocol/notification/types.rs", r"const ASYNC_CHANNEL_SIZE: usize = ([^;]+);", 8),
+    ("NODE_PING_INTERVAL_SECS", "src/protocol/libp2p/ping/config.rs", r"const PING_INTERVAL: Duration = " + _DUR, 5),
+    ("NODE_PING_MAX_FAILURES", "src/protocol/libp2p/ping/config.rs", r"const MAX_FAILURES: usize = ([^;]+);", 3),
+    ("NODE_KAD_REPLICATION_FACTOR", _KADC, r"const REPLICATION_FACTOR: usize = ([^;]+);", 20),
+    ("NODE_KAD_PARALLELISM_FACTOR", "src/protocol/libp2p/kademlia/mod.rs", r"const PARALLELISM_FACTOR: usize = ([^;]+);", 3),
+    ("NODE_KAD_DEFAULT_TTL_SECS", _KADC, r"const DEFAULT_TTL: Duration = " + _DUR, 129600),
+    ("NODE_KAD_MAX_RECORDS", _KADC, r"const DEFAULT_MAX_RECORDS: usize = ([^;]+);", 1024),
+    ("NODE_KAD_MAX_RECORD_SIZE", _KADC, r"const DEFAULT_MAX_RECORD_SIZE_BYTES: usize = ([^;]+);", 66560),
+    ("NODE_KAD_MAX_PROVIDER_KEYS", _KADC, r"const DEFAULT_MAX_PROVIDER_KEYS: usize = ([^;]+);", 1024),
+    ("NODE_KAD_MAX_PROVIDER_ADDRESSES", _KADC, r"const DEFAULT_MAX_PROVIDER_ADDRESSES: usize = ([^;]+);", 30),
+    ("NODE_KAD_MAX_PROVIDERS_PER_KEY", _KADC, r"const DEFAULT_MAX_PROVIDERS_PER_KEY: usize = ([^;]+);", 20),
+    ("NODE_KAD_PROVIDER_REFRESH_SECS", _KADC, r"const DEFAULT_PROVIDER_REFRESH_INTERVAL: Duration = " + _DUR, 79200),
+    ("NODE_KAD_PROVIDER_TTL_SECS", _KADC, r"const DEFAULT_PROVIDER_TTL: Duration = " + _DUR, 172800),
 ]
 
 
@@ -77,6 +133,11 @@ def normalize(line):
 
 # ------------------------------------------------------------------------------------------ configuration lines
 
+KAD_KEYS = ("rf", "ttl", "upd", "val", "mr", "mrs", "mpk", "mpa", "mppk", "pri", "pttl")
+TCP_KEYS = {"nd": (0, 1), "ru": (0, 1), "nra": (1, 64), "nwb": (1, 64), "cot": (1, 3600000), "sot": (1, 3600000),
+            "yms": (1, 4096), "tmpd": (1, 1000)}
+
+
 def parse_node(op):
     """`node <i> k=v…` -> configuration dict, or None if the line is not a well-formed node line."""
     t = op.split()
@@ -89,8 +150,29 @@ def parse_node(op):
         k, v = a.split("=", 1)
         kv[k] = v          # the adapter takes the last occurrence as well (HashMap collect)
     c = {"i": int(t[1]), "ka": None, "lim": None, "tcp": True, "listen": "1", "notif": [], "rr": [], "user": [], "kad": [],
-         "ping": None, "identify": False, "bitswap": False, "known": None, "exec": False}
+         "ping": None, "identify": False, "bitswap": False, "known": None, "exec": False,
+         "mpd": None, "tcpc": [], "pingf": None, "idv": None, "ida": None}
     try:
+        if "mpd" in kv:
+            c["mpd"] = int(kv["mpd"])
+            if c["mpd"] > 1000:
+                return None
+        for item in kv["tcpc"].split("/") if "tcpc" in kv else []:
+            k, v = item.split("~")
+            v = int(v)
+            if k not in TCP_KEYS:
+                return None
+            lo, hi = TCP_KEYS[k]
+            if not lo <= v <= hi:
+                return None
+            c["tcpc"].append((k, v))
+        if "pingf" in kv:
+            c["pingf"] = int(kv["pingf"])
+        for k in ("idv", "ida"):
+            if k in kv:
+                if not (re.fullmatch(r"[A-Za-z0-9/._]+", kv[k]) or (k == "ida" and kv[k] == "-")):
+                    return None
+                c[k] = kv[k]
         if "ka" in kv:
             c["ka"] = int(kv["ka"])
         if "lim" in kv:
@@ -104,12 +186,19 @@ def parse_node(op):
                 return None
         for part in kv.get("notif", "").split(",") if "notif" in kv else []:
             f = part.split(":")
-            if len(f) != 5 or not f[0] or f[4] not in ("a", "y", "n"):
+            if len(f) not in (5, 8) or not f[0] or f[4] not in ("a", "y", "n"):
                 return None
             if f[2] != "-" and (len(f[2]) % 2 or not re.fullmatch(r"[0-9a-fA-F]*", f[2])):
                 return None
+            sync, asyn, dial = 64, 64, None
+            if len(f) == 8:
+                sync, asyn = (None if x == "-" else int(x) for x in f[5:7])
+                if any(x is not None and not 1 <= x <= 100000 for x in (sync, asyn)) or f[7] not in ("-", "0", "1"):
+                    return None
+                dial = None if f[7] == "-" else f[7] == "1"
             c["notif"].append({"name": f[0], "max": int(f[1]), "hs": "-" if f[2] == "-" else f[2].lower(),
-                               "fb": [] if f[3] in ("-", "") else f[3].split("+"), "mode": f[4]})
+                               "fb": [] if f[3] in ("-", "") else f[3].split("+"), "mode": f[4],
+                               "ext": len(f) == 8, "sync": sync, "async": asyn, "dial": dial})
         for part in kv.get("rr", "").split(",") if "rr" in kv else []:
             f = part.split(":")
             if len(f) != 5 or not f[0]:
@@ -122,8 +211,24 @@ def parse_node(op):
                 return None
             c["user"].append({"name": name, "codec": codec})
         for part in kv.get("kad", "").split(",") if "kad" in kv else []:
-            names, mx = part.split(":")
-            c["kad"].append({"names": [] if names == "d" else names.split("+"), "max": None if mx == "-" else int(mx)})
+            f = part.split(":")
+            if len(f) not in (2, 3):
+                return None
+            names, mx = f[0], f[1]
+            opts = []
+            for item in f[2].split("/") if len(f) == 3 else []:
+                k, v = item.split("~")
+                if k not in KAD_KEYS:
+                    return None
+                if k in ("upd", "val"):
+                    if v not in ("m", "a"):
+                        return None
+                    opts.append((k, v))
+                else:
+                    if int(v) > 1000000000 or not v.isdigit():
+                        return None
+                    opts.append((k, int(v)))
+            c["kad"].append({"names": [] if names == "d" else names.split("+"), "max": None if mx == "-" else int(mx), "opts": opts})
         if "ping" in kv and kv["ping"] != "0":
             c["ping"] = int(kv["ping"])
         c["identify"] = kv.get("identify") == "1"
@@ -149,8 +254,18 @@ def render_node(c):
         a.append("tcp=0")
     if c.get("listen", "1") != "1":
         a.append(f"listen={c['listen']}")
+    if c.get("mpd") is not None:
+        a.append(f"mpd={c['mpd']}")
+    if c.get("tcpc"):
+        a.append("tcpc=" + "/".join(f"{k}~{v}" for k, v in c["tcpc"]))
     if c.get("notif"):
-        a.append("notif=" + ",".join(f"{p['name']}:{p['max']}:{p['hs']}:{'+'.join(p['fb']) or '-'}:{p['mode']}" for p in c["notif"]))
+        def ext(p):
+            if not p.get("ext"):
+                return ""
+            d = p.get("dial")
+            return ":" + ":".join(["-" if p.get("sync") is None else str(p["sync"]), "-" if p.get("async") is None else str(p["async"]),
+                                   "-" if d is None else str(int(d))])
+        a.append("notif=" + ",".join(f"{p['name']}:{p['max']}:{p['hs']}:{'+'.join(p['fb']) or '-'}:{p['mode']}{ext(p)}" for p in c["notif"]))
     if c.get("rr"):
         a.append("rr=" + ",".join(f"{p['name']}:{p['max']}:{p['timeout']}:{'+'.join(p['fb']) or '-'}:"
                                   f"{'-' if p['maxin'] is None else p['maxin']}" for p in c["rr"]))
@@ -158,10 +273,17 @@ def render_node(c):
         a.append("user=" + ",".join(f"{p['name']}:{p['codec']}" for p in c["user"]))
     if c.get("ping"):
         a.append(f"ping={c['ping']}")
+    if c.get("pingf") is not None:
+        a.append(f"pingf={c['pingf']}")
     if c.get("identify"):
         a.append("identify=1")
+    for k in ("idv", "ida"):
+        if c.get(k) is not None:
+            a.append(f"{k}={c[k]}")
     if c.get("kad"):
-        a.append("kad=" + ",".join(f"{'+'.join(k['names']) or 'd'}:{'-' if k['max'] is None else k['max']}" for k in c["kad"]))
+        def kopts(k):
+            return (":" + "/".join(f"{a_}~{v}" for a_, v in k["opts"])) if k.get("opts") else ""
+        a.append("kad=" + ",".join(f"{'+'.join(k['names']) or 'd'}:{'-' if k['max'] is None else k['max']}{kopts(k)}" for k in c["kad"]))
     if c.get("bitswap"):
         a.append("bitswap=1")
     if c.get("known") is not None:
@@ -216,6 +338,43 @@ def registrations(c, K=None):
     return [regs[k] for k in sorted(regs)]
 
 
+def _dedup(items):
+    d = {}
+    for p in items:
+        d[p["name"]] = p
+    return list(d.values())
+
+
+def config_notes(c, K):
+    """What every protocol object must hold once constructed (`<kind>|<canonical text>`), from the configuration alone."""
+    b = lambda x: "true" if x else "false"  # noqa: E731
+    ch = K["chan"]
+    res = []
+    for p in _dedup(c["notif"]):
+        sync = K["sync"] if p.get("sync", 64) is None else p.get("sync", 64)
+        asyn = K["async"] if p.get("async", 64) is None else p.get("async", 64)
+        dial = True if p.get("dial") is None else p["dial"]
+        res.append(f"notif|{p['name']},sync={sync},async={asyn},auto={b(p['mode'] == 'a')},dial={b(dial)},hs={p['hs']},cap={ch}/{ch}")
+    for p in _dedup(c["rr"]):
+        res.append(f"rr|{p['name']},to={p['timeout']},maxin={'-' if p['maxin'] is None else p['maxin']},cap={ch}/{ch}")
+    if c["ping"]:
+        res.append(f"ping|int={K['ping_ms'] if c['ping'] == 1 else c['ping']},mf={K['ping_mf'] if c.get('pingf') is None else c['pingf']},cap={ch}")
+    for k in c["kad"]:
+        o = dict(k.get("opts") or [])
+        mode = lambda v: "Manual" if v == "m" else "Automatic"  # noqa: E731
+        rf = o.get("rf", K["kad_rf"])
+        res.append(f"kad|rf={rf}/{rf},pf={K['kad_pf']},ttl={o.get('ttl', K['kad_ttl'])},upd={mode(o.get('upd', 'a'))},"
+                   f"val={mode(o.get('val', 'a'))},mr={o.get('mr', K['kad_mr'])},mrs={o.get('mrs', K['kad_mrs'])},"
+                   f"mpk={o.get('mpk', K['kad_mpk'])},mpa={o.get('mpa', K['kad_mpa'])},mppk={o.get('mppk', K['kad_mppk'])},"
+                   f"pri={o.get('pri', K['kad_pri'])},pttl={o.get('pttl', K['kad_pttl'])}")
+    if c["identify"]:
+        ida = c.get("ida")
+        res.append(f"identify|pv={c.get('idv') or '/verif/1'},ua={'verif' if ida is None else (K['agent'] if ida == '-' else ida)},own=true,cap={ch}")
+    if c["bitswap"]:
+        res.append(f"bitswap|cap={ch}/{ch}")
+    return res
+
+
 def expected_record(cfgs, i, K=None):
     """The registration record of node i predicted from the configurations (independent of the Lean model)."""
     K = K or consts()
@@ -234,10 +393,19 @@ def expected_record(cfgs, i, K=None):
             # one with another peer id or another transport is refused: only l<k> and x are stored
             if kind[0] == "l":
                 known.setdefault(j, set()).add(f"{j}.{kind[1:]}/p{j}")
-            elif kind == "x":
-                known.setdefault(j, set()).add(f"x/p{j}")
+            elif kind == "x" or re.fullmatch(r"x[2-9]|d[1-9]", kind):
+                known.setdefault(j, set()).add(f"{kind}/p{j}")
     names = sorted({x for r in regs for x in [r[0]] + r[3]})
+    owner = {x: r for r in regs for x in [r[0]] + r[3]}
+    tcpc = dict(c.get("tcpc") or [])    # the last setting of a field wins
+    tcp = (f"mpd={K['mpd'] if c.get('mpd') is None else max(1, c['mpd'])},reuse={'true' if tcpc.get('ru', 1) else 'false'},"
+           f"nodelay={'true' if tcpc.get('nd', 0) else 'false'},nra={tcpc.get('nra', K['nra'])},nwb={tcpc.get('nwb', K['nwb'])},"
+           f"cot={tcpc.get('cot', K['cot_ms'])},sot={tcpc.get('sot', K['sot_ms'])},left=0,"
+           f"yms={tcpc.get('yms', YAMUX_DEFAULT_MAX_STREAMS)},ymsame=true")
     return {
+        "pset": ";".join(f"{x}>{owner[x][1]}>{owner[x][2]}" for x in names),
+        "tcp": tcp,
+        "cfg": ";".join(sorted(config_notes(c, K))),
         "id": "ok",
         "listen": ",".join(f"{d}:own" for d in digits),
         "mlisten": ",".join(sorted([f"{i}.{k}" for k in range(len(digits))] + [f"{i}.{k}/p{i}" for k in range(len(digits))])),
@@ -342,6 +510,29 @@ def rand_cfg(rng, i, n_prev=0, rich=True, ka=None):
         if not c["known"] and rng.random() < 0.5:
             c["known"] = None
     c["exec"] = rng.random() < 0.3
+    # the plumbing of everything else the builders take
+    if rng.random() < 0.4:
+        c["mpd"] = rng.choice([0, 1, 1, 2, 8, 9, 64])
+    if rng.random() < 0.4:
+        keys = rng.sample(sorted(TCP_KEYS), rng.choice([1, 2, 3, 8]))
+        pick = {"nd": [0, 1], "ru": [0, 1], "nra": [1, 4, 5, 6, 64], "nwb": [1, 2, 3, 64], "cot": [1, 999, 10000, 10001, 3600000],
+                "sot": [1, 4999, 5000, 5001], "yms": [1, 256, 512, 513, 4096], "tmpd": [1, 3, 8, 1000]}
+        c["tcpc"] = [(k, rng.choice(pick[k])) for k in keys]
+    for p in c["notif"]:
+        if rng.random() < 0.5:
+            p.update({"ext": True, "sync": rng.choice([None, 1, 16, 2048, 2049]), "async": rng.choice([None, 1, 8, 9, 64]),
+                      "dial": rng.choice([None, True, False])})
+    for k in c["kad"]:
+        if rng.random() < 0.7:
+            pick = {"rf": [1, 3, 19, 20, 21], "ttl": [1, 1000, 129600000, 129600001], "upd": ["m", "a"], "val": ["m", "a"],
+                    "mr": [0, 0, 1, 2, 1024, 1025], "mrs": [0, 0, 1, 66560, 66561], "mpk": [0, 0, 1, 1024, 1025], "mpa": [0, 0, 1, 30, 31],
+                    "mppk": [0, 0, 1, 20, 21], "pri": [1, 79200000, 79200001], "pttl": [1, 172800000, 172800001]}
+            k["opts"] = [(key, rng.choice(pick[key])) for key in rng.sample(KAD_KEYS, rng.choice([1, 2, 4, 11]))]
+    if c["ping"] and rng.random() < 0.5:
+        c["pingf"] = rng.choice([0, 1, 3, 4, 100])
+    if c["identify"] and rng.random() < 0.5:
+        c["idv"] = rng.choice(["/verif/1", "/my/2.0", "v"])
+        c["ida"] = rng.choice(["-", "agent_x/1.0", "verif"])
     r = rng.random()
     if r < 0.03:
         # name clashes: `register_protocol` refuses them (assert / panic), the model says so
@@ -588,7 +779,8 @@ def identify_case(rng):
     """Identify tells the remote exactly the registered protocols and the listen/public addresses."""
     ka = 2500
     a = rand_cfg(rng, 0, ka=ka)
-    a.update({"identify": True, "tcp": True, "listen": rng.choice(["1", "12", "21"]), "lim": None, "known": None})
+    # real connections follow: transport settings that decide whether / how long a connection lives stay at their defaults
+    a.update({"identify": True, "tcp": True, "listen": rng.choice(["1", "12", "21"]), "lim": None, "known": None, "tcpc": []})
     b = base_cfg(1, ka, identify=True, user=[user()], rr=[{"name": "/r/a", "max": 64, "timeout": 500, "fb": ["/r/old"], "maxin": None}])
     if registrations(a) == "panic":
         a = base_cfg(0, ka, identify=True, user=[user()])
@@ -599,15 +791,94 @@ def identify_case(rng):
     return ops
 
 
+def fbsize_case(rng, kind=None):
+    """C04/C19 (and C12/C13): the configured maximum message size holds on substreams negotiated under a FALLBACK name.
+    Node 0 registers `/x/new` with maximum m0 and fallback name `/x/a`; node 1 only knows `/x/a` (maximum 65536): every
+    substream between them is negotiated as `/x/a`, which node 0's `ProtocolSet` must resolve to `/x/new`'s codec.
+    Messages of exactly m0, m0 + 1 and far above, in both directions (seeded C04-e2 / C12-e1 / C19-e1)."""
+    ka = 2500
+    kind = kind or rng.choice(["notif", "rr"])
+    m0 = rng.choice([32, 64, 256, 1000])
+    big = 65536
+    far = rng.choice([m0 * 20, 60000, big])
+    over = lambda: rng.choice([m0 + 1, m0 + 1, far])  # noqa: E731
+    if kind == "notif":
+        a = base_cfg(0, ka, notif=[{"name": "/n/new", "max": m0, "hs": "01", "fb": ["/n/a"], "mode": "a"}], user=[user()])
+        b = base_cfg(1, ka, notif=[{"name": "/n/a", "max": big, "hs": "02", "fb": [], "mode": "a"}], user=[user()])
+        ops = [render_node(a), render_node(b), "dialaddr 1 0 r0", "await 0 app E1 2000", "await 1 app E0 2000"]
+        opener = rng.choice([0, 1])
+        ops += [f"open_notif {opener} {'/n/new' if opener == 0 else '/n/a'} {1 - opener}", "settle", "events 0", "events 1"]
+        tag = 1
+        first = rng.choice(["recv", "send"])
+        for phase in ([first, "send" if first == "recv" else "recv"]):
+            frm, proto = (1, "/n/a") if phase == "recv" else (0, "/n/new")
+            # at the maximum: delivered; above: refused (receiver's codec for "recv", node 0's own sink for "send")
+            for ln in (m0, over(), 5):
+                ops += [f"notify {frm} {proto} {1 - frm} {ln} {tag}", "settle", "events 0", "events 1"]
+                tag += 1
+            # the stream is gone after an oversized frame: open again for the second phase
+            ops += [f"open_notif {frm} {proto} {1 - frm}", "settle", "events 0", "events 1"]
+        return ops
+    a = base_cfg(0, ka, rr=[{"name": "/r/new", "max": m0, "timeout": 600, "fb": ["/r/a"], "maxin": None}], user=[user()])
+    b = base_cfg(1, ka, rr=[{"name": "/r/a", "max": big, "timeout": 600, "fb": [], "maxin": None}], user=[user()])
+    ops = [render_node(a), render_node(b), "dialaddr 1 0 r0", "await 0 app E1 2000", "await 1 app E0 2000"]
+    tag = 1
+    steps = [("in", m0, 4), ("in", over(), 4), ("out", m0, m0), ("out", over(), 4), ("out", 3, over()), ("in", 2, m0), ("in", 2, over())]
+    rng.shuffle(steps)
+    for direction, ln, rl in steps:
+        frm, proto, rproto = (1, "/r/a", "/r/new") if direction == "in" else (0, "/r/new", "/r/a")
+        to = 1 - frm
+        ops += [f"request {frm} {proto} {to} {ln} {tag}", "settle", f"events {to}"]
+        # the responder answers the newest request that has arrived (`none` if nothing did)
+        ops += [f"respond {to} {rproto} n {rl} {(tag + 100) % 256}", "settle", f"events {frm}", f"events {to}"]
+        tag += 1
+    ops += ["wait 900", "events 0", "events 1"]
+    return ops
+
+
+def dialorder_case(rng):
+    """C10: a dial by peer id tries the known addresses in non-increasing score order — through the REAL TCP transport with
+    one dial slot (`with_max_parallel_dials(1)`), a peer known under `/dns4/127.0.0.1/tcp/<closed port>` (resolved without
+    network; DNS addresses carry the public-address bonus) and `/ip4/127.0.0.1/tcp/<closed port>` addresses; every attempt
+    fails and `ListDialFailures` lists the attempts in the order they were made (seeded C10-e2)."""
+    ka = 2500
+    ports = rng.sample(range(1, 10), rng.choice([3, 4, 5]))
+    n_dns = rng.choice([1, 1, 2])
+    kinds = [f"d{k}" for k in ports[:n_dns]] + [("x" if k == 1 else f"x{k}") for k in ports[n_dns:]]
+    rng.shuffle(kinds)
+    mpd = rng.choice([1, 1, 1, 0, 2])
+    a = base_cfg(0, ka, user=[user()])
+    b = base_cfg(1, ka, user=[user()], mpd=mpd)
+    how = rng.choice(["known", "addknown", "mixed"])
+    ops = [render_node(a)]
+    if how == "known":
+        b["known"] = [(0, kinds)]
+        ops.append(render_node(b))
+    elif how == "addknown":
+        ops += [render_node(b), f"addknown 1 0 {'+'.join(kinds)}"]
+    else:
+        b["known"] = [(0, kinds[:2])]
+        ops += [render_node(b), f"addknown 1 0 {'+'.join(kinds[2:])}"]
+    if rng.random() < 0.4:
+        # one address has failed before: its score is lower
+        ops += [f"dialaddr 1 0 {rng.choice(kinds)}", "settle 600", "events 1"]
+    ops += ["scores 1 0", "dial 1 0", "settle 600", "events 1", "scores 1 0"]
+    if rng.random() < 0.3:
+        ops += ["dial 1 0", "settle 600", "events 1", "scores 1 0"]
+    return ops
+
+
 MALFORMED = [
     ["node 1 ka=500"], ["dial 0 1"], ["node 0 ka=abc"], ["node 0 bogus"], ["node 0 notif=/n/a:1:zz:-:a"],
     ["node 0 user=/u/a:uv-", "dial 0 0", "dial 0 7", "events 3", "open_notif 0 /n/a 0", "request 0 /r/a 0 1 1", "wait 99999", "settle 5"],
     ["node 0 ka=500", "node 0 ka=600"], ["events 0"], ["node 0 lim=1", "node 0 rr=/r/a:64"],
     ["node 0 user=/u/a:uv-", "node 1 user=/u/a:uv-", "node 2", "node 3"],
     ["node 0 user=/u/a:uv-", "dialaddr 0 0 r0", "dialaddr 0 0 l5", "close 0 /u/a 0", "open_sub 0 /u/zz 0", "drop_subs 0 /u/a"],
+    ["node 0 mpd=x"], ["node 0 tcpc=nra~0"], ["node 0 tcpc=zz~1"], ["node 0 kad=d:-:mr~x"], ["node 0 kad=d:-:bogus~1"], ["node 0 notif=/n/a:8:-:-:a:0:1:1"],
+    ["node 0 identify=1 ida=a,b"], ["node 0 pingf=-1 ping=1"], ["node 0", "scores 0 0", "scores 0 3", "scores 1 0", "dialaddr 0 0 d0", "dialaddr 0 0 x1", "addknown 0 0 d10"],
 ]
 
-FAMILIES = {"dial": dial_case, "limits": limits_case, "conn": conn_case, "keepalive": keepalive_case,
+FAMILIES = {"fbsize": fbsize_case, "dialorder": dialorder_case, "dial": dial_case, "limits": limits_case, "conn": conn_case, "keepalive": keepalive_case,
             "reqresp": reqresp_case, "notif": notif_case, "identify": identify_case}
 
 # dynamic families per owning property (the static wiring cases and the malformed stream always run)
@@ -620,6 +891,11 @@ FOCUS = {
     "C11": [("notif", 14)],
     "C12": [("notif", 12)],
     "C13": [("reqresp", 16)],
+    "C04": [("fbsize", 8)],
+    "C19": [("fbsize", 8)],
+    "C10": [("dialorder", 12)],
+    # static wiring only
+    "C02": [], "C16": [], "C17": [], "C20": [],
     None: [(f, 4) for f in FAMILIES],
 }
 
@@ -633,6 +909,11 @@ def fixed_cases():
         # defaults: nothing configured but a transport
         ["node 0", "node 1 tcp=0", "node 2 listen=0"],
         ["node 0 kad=/k/1+/k/old:1024,/k/2:- user=/u/a:un ping=5000"],
+        # everything the protocol and transport builders take, at non-default values; zero store bounds
+        ["node 0 ka=700 mpd=1 tcpc=nd~1/ru~0/nra~3/nwb~4/cot~2500/sot~1500/yms~100/tmpd~5 "
+         "notif=/n/a:1024:0102:/n/a0:a:7:9:0,/n/b:64:-:-:y:-:-:- rr=/r/a:256:800:/r/old:3 ping=250 pingf=7 identify=1 idv=/my/2.0 ida=agent_x/1.0 "
+         "kad=d:-:rf~3/ttl~1000/upd~m/val~m/mr~0/mrs~0/mpk~0/mpa~0/mppk~0/pri~5000/pttl~7000,/k/2:2048:mr~1/mppk~1 bitswap=1",
+         "node 1 mpd=0 identify=1 ida=- ping=1 pingf=0 kad=d:-"],
     ]
 
 
@@ -643,6 +924,8 @@ def gen_cases(rng, tier, focus=None):
     cases += [wiring_case(rng) for _ in range(30 * scale)]
     for fam, n in FOCUS.get(focus, FOCUS[None]):
         cases += [FAMILIES[fam](rng) for _ in range(n * scale)]
+    if focus in ("C04", "C19"):
+        cases += [fbsize_case(rng, kind=k) for k in ("notif", "rr")]
     if focus == "C09":
         # every kind at every seed
         cases += [keepalive_case(rng, kind=k, fb=True) for k in ("idle", "ping", "held", "held-notif", "libp2p", "held-rr", "held-rr")]
@@ -710,10 +993,13 @@ def oracle_wiring(case, out):
                             ("mlisten", "the listen addresses registered with the manager"),
                             ("tr", "the installed transports"),
                             ("exec", "the number of event loops handed to the configured executor"),
+                            ("pset", "what a connection's ProtocolSet answers per main/fallback name (name>framing codec>keep-alive)"),
+                            ("tcp", "the configuration the TCP transport was constructed with"),
+                            ("cfg", "what the constructed protocol objects hold (kind|settings)"),
                             ("id", "the local peer id")):
             if got.get(field) != want[field]:
                 detail = ""
-                if field in ("svc", "regs"):
+                if field in ("svc", "regs", "pset", "cfg"):
                     g = set(got.get(field, "").split(";"))
                     w = set(want[field].split(";"))
                     detail = f" (unexpected: {sorted(g - w)}; missing: {sorted(w - g)})"
@@ -1092,7 +1378,7 @@ def oracle_c13(case, out):
         if t[0] == "request" and len(t) >= 6 and o.startswith("ok q"):
             node, proto, target, ln, tag = int(t[1]), t[2], int(t[3]), int(t[4]), int(t[5])
             reqs[(node, proto, o[3:])] = {"at": i, "target": target, "len": ln, "tag": tag, "dial": "dial" in t[6:], "fb": [a for a in t[6:] if a.startswith("fb=")]}
-        if t[0] == "respond" and len(t) == 6 and o == "ok":
+        if t[0] == "respond" and len(t) == 6 and o == "ok" and t[3] != "n":
             responded[(int(t[1]), t[2], int(t[3]))] = (int(t[4]), int(t[5]))
         if t[0] == "reject" and len(t) == 4 and o == "ok":
             responded[(int(t[1]), t[2], int(t[3]))] = "reject"
@@ -1298,7 +1584,99 @@ def oracle_c12(case, out):
     return bad
 
 
-ORACLES = {"C05": oracle_c05, "C06": oracle_c06, "C07": oracle_c07, "C08": oracle_c08, "C09": oracle_c09,
+SIZE_KINDS = ("oversized-delivered", "oversized-sent", "oversized-accepted", "oversized-not-refused", "refused-below-max",
+              "notification-altered", "request-altered")
+
+
+def _peer_proto(cfgs, node, proto, peer, kind):
+    """The protocol of `peer` that shares a (main or fallback) name with `proto` of `node`, or None."""
+    mine = _proto_names(cfgs.get(node, {kind: []}), kind).get(proto)
+    if mine is None:
+        return None, None
+    ours = {mine["name"], *mine["fb"]}
+    for p in cfgs.get(peer, {kind: []})[kind]:
+        if ours & {p["name"], *p["fb"]}:
+            return mine, p
+    return mine, None
+
+
+def oracle_sizes(case, out):
+    """C04 / C19 at node level: the CONFIGURED maximum message size is in force on every substream, whatever name it was
+    negotiated under: nothing larger than the receiver's maximum is ever delivered (request, response, notification),
+    nothing larger than the sender's own maximum leaves it, an oversized frame is an ERROR at the receiver (the
+    notification stream is reported closed, the request fails) — so no buffer beyond the configured limit is ever filled —
+    and a message of exactly the maximum passes."""
+    bad = [v for v in oracle_c12(case, out) + oracle_c13(case, out) if v["kind"] in SIZE_KINDS]
+    tr = Trace(case, out)
+    for i, t, o in tr.ops():
+        if t[0] != "notify" or len(t) != 6 or o != "ok":
+            continue
+        frm, proto, to, ln, tag = int(t[1]), t[2], int(t[3]), int(t[4]), int(t[5])
+        mine, theirs = _peer_proto(tr.cfgs, frm, proto, to, "notif")
+        if mine is None or theirs is None:
+            continue
+        fin = tr.final_events_index(to, i)
+        if fin is None:
+            continue
+        src = "n:" + theirs["name"]
+        after = [x for (k, x) in tr.events(to, src) if i < k <= fin]
+        if ln > min(mine["max"], theirs["max"]):
+            if f"C{frm}" not in after and not any(re.match(rf"N{frm}:{ln}:{tag}$", x) for x in after):
+                _v(bad, case, out, "oversized-not-an-error", f"node {frm} sent a notification of {ln} bytes on {proto} (its maximum {mine['max']}, "
+                   f"node {to}'s maximum {theirs['max']} for {theirs['name']}): node {to} neither refused it by closing the stream nor "
+                   f"reported anything (events after the send: {after})", i)
+        else:
+            # within both maxima on an open stream (the sink existed): it arrives
+            if not any(re.match(rf"N{frm}:{ln}:{tag}$", x) for x in after) and not any(x == f"C{frm}" for (k, x) in tr.events(to, src) if k <= fin):
+                _v(bad, case, out, "refused-below-max", f"node {frm} sent a notification of {ln} bytes on {proto} (maxima {mine['max']} / "
+                   f"{theirs['max']}) over an open stream; node {to} did not receive it (events after the send: {after})", i)
+    return bad
+
+
+def oracle_c10(case, out):
+    """A dial by peer id tries the peer's addresses in non-increasing score order (scores as the manager holds them right
+    before the dial). Judged where the order of attempts is observable: one dial slot (`max_parallel_dials` = 1, so the
+    attempts are made one after the other) and every attempt fails (`ListDialFailures` lists them as they failed)."""
+    bad = []
+    tr = Trace(case, out)
+    scores = {}
+    for i, t, o in tr.ops():
+        if t[0] == "scores" and len(t) == 3 and o.startswith("scores=["):
+            scores = {"at": i, "who": (t[1], t[2]), "map": dict(x.rsplit("=", 1) for x in o[8:-1].split(",") if "=" in x)}
+            continue
+        if t[0] == "dial" and len(t) == 3 and o == "ok" and scores and scores["at"] == i - 1 and scores["who"] == (t[1], t[2]):
+            node = int(t[1])
+            c = tr.cfgs.get(node)
+            if c is None or c.get("mpd") is None or max(1, c["mpd"]) != 1:
+                continue
+            fin = tr.final_events_index(node, i, quiet_ms=500)
+            if fin is None:
+                continue
+            ldf = [x for (k, x) in tr.events(node, "app") if i < k <= fin and x.startswith("LDF:")]
+            if len(ldf) != 1:
+                continue
+            tried = [a.rsplit(":", 1)[0] for a in ldf[0][4:].split("+") if a]
+            sc = []
+            for a in tried:
+                if a not in scores["map"]:
+                    _v(bad, case, out, "dial-unknown-address", f"node {node} tried address {a} which was not in the address book "
+                       f"{scores['map']} of node {t[2]}", i)
+                    break
+                sc.append(int(scores["map"][a]))
+            else:
+                if any(x < y for x, y in zip(sc, sc[1:])):
+                    _v(bad, case, out, "dial-order", f"node {node} (one dial slot) tried the addresses of node {t[2]} in the order "
+                       f"{list(zip(tried, sc))}: not in non-increasing score order (address book before the dial: {scores['map']})", i)
+                best = sorted((int(v) for v in scores["map"].values()), reverse=True)[:len(sc)]
+                if sorted(sc, reverse=True) != best and len(sc) < len(scores["map"]):
+                    _v(bad, case, out, "dial-not-best", f"node {node} tried {list(zip(tried, sc))} although better-scored addresses were "
+                       f"available ({scores['map']})", i)
+        if t[0] != "events":
+            scores = scores if t[0] in ("scores",) else scores
+    return bad
+
+
+ORACLES = {"C04": oracle_sizes, "C19": oracle_sizes, "C10": oracle_c10, "C05": oracle_c05, "C06": oracle_c06, "C07": oracle_c07, "C08": oracle_c08, "C09": oracle_c09,
            "C11": oracle_c11, "C12": oracle_c12, "C13": oracle_c13}
 
 
@@ -1345,29 +1723,49 @@ def matches_known(k, v):
 
 TRUSTED_NODE = ("node area: real nodes built through ConfigBuilder/Litep2p::new on loopback TCP (adapter /repo/src/verif/node.rs, "
                 "checks/node.py, Model/Node/Wiring.lean, Driver/Node.lean); the registration record is read through guarded "
-                "read accessors (manager fields, ConnectionLimits::verif_config) and a thread-local log written by "
-                "TransportService::new from the constructed value; dynamic operations run in real time (quiescence = no event "
+                "read accessors (manager fields, ConnectionLimits::verif_config, AddressRecord::verif_score, ProtocolSet::verif_keep_alive, "
+                "MemoryStore::verif_config, QueryEngine::verif_factors, HandshakeService::verif_handshake, TcpTransport::verif_config), a "
+                "thread-local log written by TransportService::new from the constructed value and a process-wide log (keyed by the "
+                "local peer id) written by every protocol object at the top of its run() and by Litep2p::new for the TCP transport it "
+                "has just built (the adapter waits up to 4 s for every registered protocol to report); the per-name codec / keep-alive "
+                "answers come from a ProtocolSet built like a connection's (manager.transport_handle().protocol_set()); the yamux "
+                "configuration is observed as its stream limit (parsed from its Debug text) plus 'equal to the one handed in'; dynamic operations run in real time (quiescence = no event "
                 "for 350 ms; 600 ms where the absence of a dial outcome is judged), durations are judged with slack (idle close: not earlier than the configured timeout minus 250 ms "
                 "establishment skew, not later than +1.5 s)")
-ASSUME_NODE = ("node area: loopback addresses 127.0.0.1-127.0.0.4 are usable and port 1 is closed; a wiring defect that only shows "
+ASSUME_NODE = ("node area: loopback addresses 127.0.0.1-127.0.0.4 are usable, TCP ports 1-9 on 127.0.0.1 are closed and the resolver answers "
+               "the name '127.0.0.1' without network access (hickory's IP-literal shortcut); yamux::Config::default() allows 512 streams "
+               "(yamux crate 0.13, outside /repo); the attempt order of a dial is judged with one dial slot only (with more slots the "
+               "failures are reported in completion order); a wiring defect that only shows "
                "with transports other than TCP, with mDNS or with the system DNS configuration is outside (default feature set)")
 RULE_NODE = ("node area (real nodes): 30 random configurations per run (every protocol kind, sizes, fallback names, limits, keep-alive "
              "values incl. the default, 0-3 listen addresses, known addresses of every kind, custom executor, name clashes, no "
-             "transport) whose registration records the wiring model must predict exactly, a malformed stream, and the property's own "
-             "real-time scenario family; a case is non-trivial if a node was built")
+             "transport; max_parallel_dials, every field of the TCP config, notification channel sizes / dialing, ping failures, identify "
+             "version / agent, every kademlia builder setter with zero store bounds) whose registration records — incl. what a connection's "
+             "ProtocolSet answers per main / fallback name and what the constructed transport and protocol objects hold — the wiring model "
+             "must predict exactly, a malformed stream, and the property's own real-time scenario family (C04/C19: sizes on substreams "
+             "negotiated under a fallback name; C10: attempt order of a dial by peer id over DNS + IP addresses with one dial slot; C02, "
+             "C16, C17, C20: static cases only); a case is non-trivial if a node was built")
 
 
 NODE_THEOREMS = {
+    "C02": ["noise_config_reaches_transport"],
+    "C04": ["codec_of_fallback_is_codec_of_main"],
     "C05": ["known_and_listen_addresses_installed", "registration_order_irrelevant"],
     "C06": ["configured_limits_installed"],
     "C08": ["identify_told_every_registered_protocol"],
     "C09": ["configured_keep_alive_reaches_service", "keep_alive_flag_by_protocol_kind"],
-    "C11": ["notification_registered_with_own_codec_and_size"],
-    "C13": ["registered_with_own_codec_and_size"],
+    "C10": ["transport_attempts_in_given_order", "max_parallel_dials_reaches_transport"],
+    "C11": ["notification_registered_with_own_codec_and_size", "notification_config_reaches_protocol"],
+    "C13": ["registered_with_own_codec_and_size", "request_response_config_reaches_protocol"],
+    "C16": ["kademlia_config_reaches_protocol"],
+    "C17": ["store_config_reaches_protocol"],
+    "C19": ["fallback_name_keeps_configured_limit"],
+    "C20": ["bitswap_config_reaches_protocol"],
 }
 MANIFEST_NODE = (" Wiring (coverage round `node`): {thms} — over the wiring model Model/Node/Wiring.lean (a function from the "
                  "ConfigBuilder calls to the per-protocol registration record, the limits, addresses and identify's protocol list, "
-                 "written from src/lib.rs and src/config.rs), tied to the real ConfigBuilder/Litep2p::new by the node area: real nodes "
+                 "what the protocol / transport builders leave in the constructed objects and what ProtocolSet answers per name, "
+                 "written from src/lib.rs, src/config.rs, the protocol config.rs files and src/protocol/protocol_set.rs), tied to the real ConfigBuilder/Litep2p::new by the node area: real nodes "
                  "built through the public API print their ACTUAL registration record, compared field by field with the model's, and "
                  "run this property's scenarios over loopback TCP in real time under a node-level oracle.")
 
@@ -1404,5 +1802,5 @@ def install(g):
     g["THEOREMS"] = list(g["THEOREMS"]) + [t for t in thms if t not in g["THEOREMS"]]
     m = dict(g["MANIFEST"])
     m["text"] = m["text"] + MANIFEST_NODE.format(thms=", ".join(thms) if thms else "no theorem of its own (the wiring theorems live "
-                                                 "in Props/C05, C06, C08, C09, C11, C13)")
+                                                 "in Props/C02, C04, C05, C06, C08, C09, C10, C11, C13, C16, C17, C19, C20)")
     g["MANIFEST"] = m
